@@ -383,11 +383,16 @@ def gADMMParams? (j : Json) : Option (ADMMParams Float FV FV) := do
       | some q => q
       | none => (Mat.zero n, FV.zeros n))
     | none => (Mat.zero n, FV.zeros n)
-  let lhs := (List.zip rho Cs).foldl (fun acc t => Mat.add acc (Mat.scale t.1 (t.2.M.gram none))) H0
+  -- optional weights of the constraint terms in the x-step (G0BlockCircularConvolveSolver docstring: rho_1 * omega)
+  let xw : List Float := match fFloats? j "xw" with
+    | some l => l
+    | none => rho.map (fun _ => 1.0)
+  let rhoX := List.zipWith (fun r w => r * w) rho xw
+  let lhs := (List.zip rhoX Cs).foldl (fun acc t => Mat.add acc (Mat.scale t.1 (t.2.M.gram none))) H0
   some { f := f.map (fun F => F.eval), g := gs.map (fun G => G.eval), proxg := gs.map (fun G => G.prox),
          C := Cs.map (fun C => C.app), Cadj := Cs.map (fun C => C.jadj (FV.zeros n)), rho := rho, alpha := alpha,
          solveX := fun z u _ =>
-           let rhs := (List.zip rho (List.zip Cs (List.zip z u))).foldl
+           let rhs := (List.zip rhoX (List.zip Cs (List.zip z u))).foldl
              (fun acc t => acc + t.1 • t.2.1.M.tMulVec (t.2.2.1 - t.2.2.2)) r0
            lhs.solve rhs,
          normX := FV.norm, normZ := FV.norm }
